@@ -65,6 +65,7 @@ def shards(tier, seed):
             out.append(("prefixes", nt, b, 8))
     out.append(("generated",))
     out.append(("files-edited",))
+    out.append(("casei",))
     out.append(("redef", 0, None))
     for e in RD_EVENTS:
         out.append(("redef", 4 if tier == "quick" else 5, list(e)))
@@ -606,6 +607,40 @@ def run_files_edited(acc):
     acc.sample({"clause": "files-edited", "edit": "imported-file-edited", "probe": "get_root_units(rod) after rod = 3 * meter became rod = 7 * meter"})
 
 
+# ----------------------------------------------------------------------------- (h) case-insensitive registries
+
+CASEI_UNITS = ("Hz", "eV", "W", "m", "g", "s", "V", "Pa", "J", "hertz", "meter", "N", "K", "L", "l", "T", "t", "B", "b", "F", "C", "h", "H", "S", "A", "a", "d", "D")
+
+
+def run_casei(acc):
+    """in a registry built with case_sensitive=False a spelling may have more readings, but the factor is still the one of
+    a reading the rule allows (prefix as written, unit name compared without case): every prefix spelling x 28 unit
+    spellings, get_root_units / convert / Quantity.to_root_units against the reader's case-insensitive reading set"""
+    M = model()
+    ureg = regs.default("Fraction", case_sensitive=False)
+    st, pt = M.spelling_table(), M.prefix_table()
+    for ps in pt:
+        for us in CASEI_UNITS:
+            s_ = ps + us
+            if s_ in st:
+                continue
+            try:
+                rd = M.readings(s_, case_sensitive=False)
+            except Exception:  # noqa
+                continue
+            if not rd or any(not M.units[u].is_multiplicative for _, u in rd):
+                continue
+            wants = {((M.root(u) * M.prefixes[p].value) if p else M.root(u)).coef for p, u in rd}
+            acc.nt(("casei", s_))
+            for api, fn in (("get_root_units", lambda: ureg.get_root_units(s_)[0]), ("to_root_units", lambda: ureg.Quantity(1, s_).to_root_units().magnitude)):
+                acc.ev()
+                o = conv_out(fn)
+                if o[0] != "ok" or o[1] not in wants:
+                    acc.violation(["case-insensitive", api, "factor-is-not-that-of-an-allowed-reading", "upper-case-prefix-symbol" if ps[:1].isupper() else "other"], {"string": s_, "readings": [list(r) for r in rd]}, sorted(str(w) for w in wants), show(o[1]) if o[0] == "ok" else o)
+    acc.outcome("case-insensitive")
+    acc.sample({"clause": "case-insensitive", "string": "MHz", "expected": "mega x hertz: 1000000 / second"})
+
+
 # ----------------------------------------------------------------------------- dispatch / replay
 
 
@@ -625,6 +660,8 @@ def run_shard(acc, shard, tier, seed):
         run_generated(acc)
     elif k == "files-edited":
         run_files_edited(acc)
+    elif k == "casei":
+        run_casei(acc)
     elif k == "redef":
         drv = RedefDriver()
         first = None if shard[2] is None else tuple(shard[2])
@@ -642,6 +679,8 @@ def replay(rec):
     acc = core.Acc(PROPERTY)
     if site[0] == "files-edited":
         run_files_edited(acc)
+    elif site[0] == "case-insensitive":
+        run_casei(acc)
     elif site[0] == "redefined":
         drv = RedefDriver()
         hist = tuple(tuple(e) for e in case["history"])
